@@ -20,7 +20,6 @@
     the row-index path in arrow.rs), as is the logical-type -> Arrow-type table of both files. *)
 From Coq Require Import NArith ZArith List Bool.
 From Snel Require Import Base.Bytes Gen.Params.
-From Snel Require Model.WalArchive.
 Import ListNotations.
 Open Scope N_scope.
 
@@ -42,7 +41,19 @@ Definition i64_min : Z := (- 2 ^ 63)%Z.
 Definition i64_max : Z := (2 ^ 63 - 1)%Z.
 Definition u64_max : Z := (2 ^ 64 - 1)%Z.
 
-Definition base64 := WalArchive.base64.
+(** standard base64 with padding ([BASE64_STANDARD.encode]) *)
+Definition b64_char (i : N) : N :=
+  if i <? 26 then 65 + i else if i <? 52 then 97 + (i - 26) else if i <? 62 then 48 + (i - 52)
+  else if i =? 62 then 43 else 47.
+Fixpoint base64 (b : bytes) : bytes :=
+  match b with
+  | [] => []
+  | [x] => [b64_char (x / 4); b64_char ((x mod 4) * 16); 61; 61]
+  | [x; y] => [b64_char (x / 4); b64_char ((x mod 4) * 16 + y / 16); b64_char ((y mod 16) * 4); 61]
+  | x :: y :: z :: r =>
+      b64_char (x / 4) :: b64_char ((x mod 4) * 16 + y / 16) :: b64_char ((y mod 16) * 4 + z / 64)
+      :: b64_char (z mod 64) :: base64 r
+  end.
 
 (** finite f64 bit pattern: exponent field not all ones *)
 Definition f64_finite (bits : N) : bool := negb (((bits / 2 ^ 52) mod 2 ^ 11) =? 2047).
@@ -348,6 +359,10 @@ Definition cell_all_agree (lt : bytes) (v : scalar) : bool :=
   cell_agree (arrow_cell PWhole lt v) (arrow_cell PRow lt v) &&
   cell_agree (json_cell v) (text_cell v).
 
+(** an integer that [as f64] represents exactly *)
+Definition int_exact_in_f64 (z : Z) : bool :=
+  match f64_int_value (f64_of_Z z) with Some y => (y =? z)%Z | None => false end.
+
 (** ** Known classes of disagreeing cells *)
 
 Inductive kclass :=
@@ -356,7 +371,7 @@ Inductive kclass :=
 | NonFiniteFloatAsNull        (* NaN / inf in a Float or String column: JSON null, Arrow NaN / inf / text *)
 | NonIntegerInIntegerColumn   (* Boolean, finite Float64, Utf8 or Binary cell in an Int64 column *)
 | NonTimestampInTimestampColumn
-| NonFloatInFloatColumn       (* Boolean, Int64, Timestamp, Utf8 or Binary cell in a Float64 column *)
+| NonFloatInFloatColumn       (* Boolean, Timestamp, Utf8 or Binary cell, or an Int64 that f64 cannot hold exactly, in a Float64 column *)
 | NonBooleanInBooleanColumn   (* Int64, Timestamp, finite Float64, Utf8 or Binary cell in a Boolean column *)
 | NonStringInStringColumn.    (* Boolean, Int64, Timestamp or finite Float64 cell in a LargeUtf8 column *)
 
@@ -384,7 +399,17 @@ Definition known_class_t (t : atype) (v : scalar) : option kclass :=
       if f64_finite bits then match t with AFloat64 => None | _ => Some (mismatch_class t) end
       else match t with AFloat64 | ALargeUtf8 => Some NonFiniteFloatAsNull | _ => None end
   | SBool _ => match t with ABool => None | _ => Some (mismatch_class t) end
-  | SInt _ | STs _ => match t with AInt64 | ATsMs => None | _ => Some (mismatch_class t) end
+  | SInt z =>
+      match t with
+      | AInt64 | ATsMs => None
+      | AFloat64 =>
+          (* both Arrow conversions write [z as f64] when their builders take Int64 cells (after fix
+             fba8206); that agrees with the JSON integer exactly when the conversion is exact *)
+          if render_w_float_int64 && render_r_float_int64 && int_exact_in_f64 z then None
+          else Some NonFloatInFloatColumn
+      | _ => Some (mismatch_class t)
+      end
+  | STs _ => match t with AInt64 | ATsMs => None | _ => Some (mismatch_class t) end
   | SBin _ => match t with ALargeUtf8 => None | _ => Some (mismatch_class t) end
   end.
 Definition known_class (lt : bytes) (v : scalar) : option kclass := known_class_t (arrow_type_schema lt) v.
@@ -704,9 +729,13 @@ Definition body_status (e : encoding) (s : status) (msg : bytes) : option N :=
   | _ => Some (status_code s)      (* the member written by the renderer; the JSON reader is not modelled *)
   end.
 
-(** [extract_http_status_from_response] on those bytes (frontend/http/dispatcher.rs): only a body
-    that starts with '{', shows the word "status" inside its first [render_http_sniff_window]
-    bytes and is shorter than [render_http_parse_full_below] bytes is parsed; everything else is
+(** [extract_http_status_from_response] on those bytes (frontend/http/dispatcher.rs).
+    A body that does not start with '{': the status is read from a leading "<3 digits> " when
+    [render_http_text_header] (fix c214409), else 200.  A body that starts with '{' is parsed only if
+    it shows the word "status" — inside a fixed window ([render_http_sniff_window = Some w], the
+    pinned tree) or inside the part that would be parsed ([None], after the fix) — and is shorter
+    than [render_http_parse_full_below] bytes (of a longer body only the first
+    [render_http_parse_prefix] bytes are parsed, never a complete document); everything else is
     answered with 200. *)
 Definition status_word : bytes := [115; 116; 97; 116; 117; 115].
 Fixpoint has_window (w : bytes) (s : bytes) (fuel : nat) : bool :=
@@ -719,16 +748,28 @@ Fixpoint has_window (w : bytes) (s : bytes) (fuel : nat) : bool :=
   end.
 Definition map_http (code : N) : N :=
   if mem_N code render_http_known_codes then code else 200.
+Definition three_digit_header (out : bytes) : option N :=
+  match out with
+  | a :: b :: c :: d :: _ =>
+      if is_digit a && is_digit b && is_digit c && (d =? 32)
+      then Some (100 * digit_val a + 10 * digit_val b + digit_val c) else None
+  | _ => None
+  end.
 Definition http_status_of_error (e : encoding) (s : status) (msg : bytes) : N :=
   let out := render_error e s msg in
   match out with
   | c :: _ =>
-      if negb (c =? 123) then 200
+      if negb (c =? 123) then
+        (if render_http_text_header
+         then match three_digit_header out with Some code => map_http code | None => 200 end
+         else 200)
       else
-        let head := firstn (N.to_nat render_http_sniff_window) out in
+        let len := N.of_nat (length out) in
+        let parse_len := if len <? render_http_parse_full_below then len else N.min len render_http_parse_prefix in
+        let head := firstn (N.to_nat (match render_http_sniff_window with Some w => w | None => parse_len end)) out in
         if negb (has_window status_word head (length head)) then 200
-        else if N.of_nat (length out) <? render_http_parse_full_below then map_http (status_code s)
-        else 200      (* only the first bytes of a long body are parsed: never a complete document *)
+        else if len <? render_http_parse_full_below then map_http (status_code s)
+        else 200
   | [] => 200
   end.
 
@@ -737,5 +778,11 @@ Definition http_status_of_error (e : encoding) (s : status) (msg : bytes) : N :=
 Definition http_status_same (s : status) (msg : bytes) : bool :=
   (http_status_of_error EJson s msg =? http_status_of_error EText s msg) &&
   (http_status_of_error EJson s msg =? http_status_of_error EArrow s msg).
-(** KnownClass of the error clause (HttpStatusSniffedFromBody): any status other than 200 *)
-Definition http_known (s : status) : bool := match s with StOk => false | _ => true end.
+(** KnownClass of the error clause after fix c214409 (HttpStatusLongErrorBodyUnparsed): an error
+    (status other than 200) whose JSON / Arrow-fallback body reaches the full-parse limit *)
+Definition http_known (s : status) (msg : bytes) : bool :=
+  match s with
+  | StOk => false
+  | _ => (render_http_parse_full_below <=? N.of_nat (length (render_error EJson s msg)))
+         || (render_http_parse_full_below <=? N.of_nat (length (render_error EArrow s msg)))
+  end.
